@@ -29,6 +29,10 @@ type Violation struct {
 	// Fatal: the worker process is no longer usable (a goroutine of the code under test is
 	// spinning); the violation is saved without minimisation and the worker stops.
 	Fatal bool `json:"-"`
+	// NoMinimise: the failure depends on something the simulator does not own (garbage
+	// collection under the gc-hammer option): a candidate that happens not to fail says
+	// nothing, so the scenario is saved as found.
+	NoMinimise bool `json:"-"`
 }
 
 func V(class, format string, a ...any) *Violation {
@@ -384,7 +388,10 @@ func minimiseAndSave(p *Prop, sc any, c *Ctx, v *Violation, seed uint64, tier, d
 		tapes = tp
 		v = nv
 	}
-	if p.Simplify != nil {
+	if v.NoMinimise {
+		budget = time.Now()
+	}
+	if p.Simplify != nil && !v.NoMinimise {
 		progress := true
 		for progress && time.Now().Before(budget) {
 			progress = false
